@@ -1,0 +1,14 @@
+//go:build verif
+
+package crl
+
+import "github.com/gr33nbl00d/caddy-revocation-validator/crl/crlrepository"
+
+// VerifTick runs the crl update exactly like a tick of the update ticker does
+func (c *CRLRevocationChecker) VerifTick() { c.updateCRLs(false) }
+
+// VerifForceUpdate runs the crl update exactly like the background fetch does
+func (c *CRLRevocationChecker) VerifForceUpdate() { c.updateCRLs(true) }
+
+// VerifRepository exposes the repository of the checker
+func (c *CRLRevocationChecker) VerifRepository() *crlrepository.Repository { return c.crlRepository }
